@@ -7,7 +7,7 @@ LEVEL_TEXT = ("G-obligations: the real Ed25519 drivers (keypair.c, sign.c, open.
 TRUSTED = ["CBMC 6.11 + uninterpreted-function encoding", "abstract group model stubs/ideal_ed25519.c",
            "RFC 8032 data flow transcribed in harness/C06/ed25519.c"]
 ASSUMPTIONS = ["message length in the enumerated set"]
-OUTSIDE = ["the group law, scalar arithmetic mod L and point decoding themselves (algebra; see C07)", "that the cofactored equation is the right one (RFC 8032; trusted)",
+OUTSIDE = ["the group law and point decoding themselves (algebra; see C07); scalar arithmetic mod L (sc25519_reduce / muladd) is decided under C07 (E2 limb mode)", "that the cofactored equation is the right one (RFC 8032; trusted)",
            "pk_to_curve25519 birational map (field inversion chain)"]
 UNITS = ["crypto_sign/ed25519/ref10/keypair.c", "crypto_sign/ed25519/ref10/sign.c", "crypto_sign/ed25519/ref10/open.c",
          "crypto_sign/ed25519/sign_ed25519.c", "sodium/utils.c", "crypto_verify/verify.c"]
